@@ -49,8 +49,12 @@ tf = util.import_tf()
 def save_state(state, path):
   """Saves state to file path."""
   logging.info('Saving state to %s.', path)
-  with tf.io.gfile.GFile(path, 'wb') as f:
+  # Write to a temporary name first and rename, so that a partially written
+  # file (e.g. after a crash) is never visible under `path`.
+  tmp_path = f'{path}.tmp'
+  with tf.io.gfile.GFile(tmp_path, 'wb') as f:
     pickle.dump(state, f)
+  tf.io.gfile.rename(tmp_path, path, overwrite=True)
 
 
 def load_state(path):
